@@ -40,7 +40,7 @@ def build(case, trace):
         from coba.environments import Environments
         envs = list(Environments(envs).chunk())
     lrns = [Lrn(i, l.get("p", 0)) for i, l in enumerate(case["lrns"])]
-    vals = [Val(i, trace, v.get("mode", "rows"), v.get("style", 0), v.get("nrows", 3), case.get("empty", ()), case.get("boom", ()))
+    vals = [Val(i, trace, v.get("mode", "rows"), v.get("style", 0), v.get("nrows", 3), case.get("empty", ()), case.get("boom", ()), case.get("big"))
             for i, v in enumerate(case["vals"])]
     if case.get("triples") is None:
         return Experiment(envs, lrns, vals, description=case.get("desc"))
@@ -180,6 +180,12 @@ class Log:
             return max(0, min(n, self.bounds[i] + spec[2]))
         if spec[0] == "p":
             return max(0, min(n, spec[1] * n // 1000))
+        if spec[0] in ("ls", "le", "lp") and self.lines:
+            # relative to the LONGEST record: start + d / end (just after its newline or member) + d / permille of it
+            i = max(range(len(self.lines)), key=lambda j: len(self.lines[j]))
+            lo, hi = self.bounds[i], self.bounds[i + 1]
+            k = lo + spec[1] if spec[0] == "ls" else (hi + spec[1] if spec[0] == "le" else lo + spec[1] * (hi - lo) // 1000)
+            return max(0, min(n, k))
         return max(0, min(n, spec[1]))
 
     def all_ks(self, cuts):
@@ -275,7 +281,8 @@ class C02(Property):
     rule = ("experiments of 1-3 environments x 1-3 learners x 1-2 evaluators (full product or an explicit, shuffled, partial triple list; "
             "parameter texts with escapes/brackets/non-ASCII; evaluators with ragged rows, no reward column, zero rows, raising triples; real "
             "SequentialCB), result file plain or .gz, complete log cut at every record boundary +-2 bytes plus PRNG-chosen offsets (thorough: "
-            "every byte offset of small logs), resumed under a PRNG-chosen configuration (processes 1-3, maxchunksperchild, maxtasksperchunk, "
+            "every byte offset of small logs; 7% of the cases hold one record of 65 KB-1.5 MB cut at offsets spread over it, around 4 KiB/64 KiB "
+            "multiples from its start and end and just before its newline), resumed under a PRNG-chosen configuration (processes 1-3, maxchunksperchild, maxtasksperchunk, "
             "chunked environments), 25% of the cases interrupted and resumed a second time; non-trivial = some cut strictly inside the log restores "
             "at least one record and leaves at least one task to run; distinct by canonical JSON of the case")
     trusted_base = [
@@ -319,7 +326,34 @@ class C02(Property):
                                {"processes": 2, "maxchunksperchild": 1, "maxtasksperchunk": 1}])
         return {"processes": 1, "maxtasksperchunk": rng.choice([0, 0, 1, 2, 5])}
 
+    def long_cuts(self, rng, nrec, extra):
+        """offsets spread over the longest record: near its start, around 4 KiB / 64 KiB multiples from its start (= from the
+        END of the cut file, which ends inside it), around the same distances before its end, just before its newline"""
+        cuts = [["ls", d] for d in (0, 1, 2, 40, 4095, 4096, 4097, 65535, 65536, 65537, 65600, 131071, 131072, 131073)]
+        cuts += [["le", d] for d in (0, -1, -2, -3, -4096, -4097, -65535, -65536, -65537, -65538)]
+        cuts += [["lp", rng.below(1001)] for _ in range(extra)]
+        cuts += [["ls", 65536 * rng.randint(1, 20) + rng.randint(-2, 2)] for _ in range(extra)]
+        cuts += [["b", 1, 0], ["b", nrec, 0], ["b", nrec, -1], ["p", rng.below(1001)]]
+        return cuts
+
+    def gen_long(self, rng, tier):
+        """family with one very long record (an I record whose rows hold long strings): > 64 KiB, sometimes > 1 MiB"""
+        ne, nl = rng.choice([1, 2]), rng.choice([1, 2])
+        c = {"envs": [{"n": 1, "p": rng.below(3)} for _ in range(ne)], "lrns": [{"p": rng.below(3)} for _ in range(nl)],
+             "vals": [{"mode": "rows", "style": rng.below(2), "nrows": 2}], "desc": rng.choice([None, "long"]),
+             "gz": rng.chance(0.4), "cfg0": CFG1, "cfg": {"processes": 1, "maxtasksperchunk": rng.choice([0, 0, 1])}}
+        huge = rng.chance(0.12)
+        size = rng.randint(1100000, 1500000) if huge else rng.choice([66000, 70000, 90000, 131500, 200000, rng.randint(65000, 300000)])
+        c["big"] = {"pairs": [[rng.below(ne), rng.below(nl)]], "size": size, "rows": rng.choice([1, 1, 2, 3])}
+        nrec = 2 + ne + nl + 1 + ne * nl
+        c["cuts"] = self.long_cuts(rng, nrec, 2 if huge else 5)
+        if huge:
+            c["cuts"] = c["cuts"][::2] if rng.chance(0.5) else c["cuts"][1::2]
+        return c
+
     def generate(self, rng, tier):
+        if rng.chance(0.07):
+            return self.gen_long(rng, tier)
         c = self.gen_exp(rng)
         c["gz"] = rng.chance(0.3)
         mp = rng.chance(0.05)
@@ -343,6 +377,8 @@ class C02(Property):
         return c
 
     def search(self, rng, tier):
+        if rng.chance(0.25):
+            return self.gen_long(rng, tier)
         c = self.gen_exp(rng, small=True)
         c["gz"] = rng.chance(0.3)
         c["cfg0"], c["cfg"] = CFG1, self.gen_cfg(rng, False)
@@ -364,6 +400,12 @@ class C02(Property):
         cs.append(dict(base, envs=[{"n": 2, "p": 2}], lrns=[{"p": 1}, {}], gz=True, cuts=ALL))
         cs.append(dict(base, envs=[{"n": 1}, {"n": 2}], lrns=[{}, {}], triples=[[1, 1, 0], [0, 0, 0], [1, 0, 0]], boom=[[1, 0]], gz=False, cuts=ALL,
                        chain={"p": 500, "d": 1, "cfg": CFG1}))
+        # one very long record (torn deep inside, around 64 KiB from its start = from the end of the cut file, just before its newline)
+        lc = [["ls", d] for d in (1, 4096, 65535, 65536, 65537, 70000)] + [["le", d] for d in (0, -1, -2, -65536, -65537)] + [["lp", 500]]
+        for gz in (False, True):
+            cs.append(dict(base, envs=[{"n": 1}, {"n": 1}], gz=gz, big={"pairs": [[0, 0]], "size": 140000, "rows": 2}, cuts=lc))
+            cs.append(dict(base, gz=gz, big={"pairs": [[0, 0]], "size": 70000, "rows": 1}, cuts=lc))
+        cs.append(dict(base, gz=False, big={"pairs": [[0, 0]], "size": 1150000, "rows": 3}, cuts=[["ls", 65537], ["lp", 700], ["le", -1], ["le", -65537]]))
         cs.append(dict(base, envs=[{"n": 1}, {"n": 2}], lrns=[{}, {}], gz=False, cfg={"processes": 2}, cuts=[["b", 4, 3], ["b", 5, 0]]))
         cs.append(dict(base, envs=[{"n": 1}, {"n": 2}], chunk=True, gz=False, cfg={"processes": 1, "maxtasksperchunk": 1}, cuts=[["b", 4, 3], ["b", 5, 0], ["b", 3, -1]]))
         return cs
@@ -395,6 +437,8 @@ class C02(Property):
         trace = os.path.join(d, "trace")
         flags = detect_flags()
         tags.append("fmt:" + fmt)
+        if case.get("big"):
+            tags.append("long-record:>1MiB" if case["big"]["size"] > (1 << 20) else "long-record:>64KiB")
         tags.append("flags:%d%d%d" % tuple(int(x) for x in flags))
 
         # the uninterrupted run
@@ -495,6 +539,12 @@ class C02(Property):
         nb0 = len([f for f in fails if f["kind"] == "B"])
         cls, j, tail = lg.cut_class(k)
         tags.append("cut:%s:%s" % (fmt, cls))
+        if len(tail) > (1 << 20):
+            tags.append("cut:%s:tail>1MiB" % fmt)
+        elif len(tail) > (1 << 16):
+            tags.append("cut:%s:tail>64KiB" % fmt)
+        elif len(tail) > 4096:
+            tags.append("cut:%s:tail>4KiB" % fmt)
         if cfg.get("processes", 1) > 1 or cfg.get("maxchunksperchild", 0):
             tags.append("cfg:multiprocess")
         elif cfg.get("maxtasksperchunk", 0):
@@ -650,7 +700,14 @@ class C02(Property):
             yield dict(case, cuts=cuts[len(cuts) // 2:])
         if case.get("cfg") != CFG1:
             yield dict(case, cfg=CFG1)
-        for key in ("chunk", "empty", "boom", "triples"):
+        if case.get("big"):
+            b = case["big"]
+            if b.get("rows", 1) > 1:
+                yield dict(case, big=dict(b, rows=1))
+            for sz in (66000, 140000):
+                if b["size"] > sz:
+                    yield dict(case, big=dict(b, size=sz))
+        for key in ("chunk", "empty", "boom", "triples", "big"):
             if case.get(key):
                 yield {k: v for k, v in case.items() if k != key}
         if case.get("desc") is not None:
